@@ -57,6 +57,10 @@ def _apply_fns(name, est):
 
 
 KEEP_LABELS = [False]
+# the supervised forest standardises the periodogram column by column; its first column (the removed mean) is rounding noise of ~1e-31, which the
+# standardisation blows up to order one, and scipy's FFT rounds differently for strided input (1.8e-15): the chosen intervals then depend on
+# the array's strides.  That is amplified floating-point noise, not container handling, so the training array keeps C order for it.
+FIT_AMPLIFIES_ROUNDING = {"stsf"}
 
 
 def _sub(df, idx):
@@ -187,7 +191,7 @@ def run_case(case, ctx):
         if A is None:
             ctx.seen("container.apply", 0)
             continue
-        ok, o = ctx.call("apply:exception:%s:%s:numpy-input" % (name, fname), f, A.copy())
+        ok, o = ctx.call("apply:exception:%s:%s:numpy-input" % (name, fname), f, A.copy(order="K"))       # order="K": keep the memory layout
         if ok:
             O = pzoo.canon(o)
             ctx.check("container.apply", len(O) == ni and all(_req(O[k], B[k]) for k in range(ni)), "container:%s:%s:3d-array-input-differs-from-nested" % (name, fname),
@@ -205,6 +209,8 @@ def run_case(case, ctx):
         k_, v_ = variant.split("=", 1)
         est2.set_params(**{k_: est.get_params(deep=False)[k_]})
     Atr = np.array([[np.asarray(Xtr.iloc[i, j]) for j in range(nc)] for i in range(len(Xtr))])        # same values, same dtype
+    if case.get("layout", "C") != "C" and name not in FIT_AMPLIFIES_ROUNDING:
+        Atr = np.asfortranarray(Atr) if case["layout"] == "F" else np.ascontiguousarray(Atr.transpose(2, 1, 0)).T
     try:
         est2.fit(Atr, yfit) if (name in pzoo.CLASSIFIERS or name in pzoo.REGRESSORS or name in pzoo.SUPERVISED_T) else est2.fit(Atr)
     except Exception as e:  # noqa
